@@ -594,13 +594,13 @@ def run(chk):
                                      "re-run: build/bin/c18dump -cg -o x.dump %s ; compare the C and R lines" % (pname, SELS[s], names, pname),
                                      [(os.path.join(pname, "main.go"), "main.go")])
                         # classify through the certificate gaps when possible
-                        keys = set()
+                        keys = {}
                         if mp:
                             for g in mp["gaps"]:
                                 if g["src"] == "impl" and g["fn"] in miss:
-                                    keys.add(gap_key(g))
-                        for key in (keys or {"cg-not-contained"}):
-                            violation(key, "call-graph reachable function not reported (%s, %s): %s" % (short, SELS[s], names[:3]), d)
+                                    keys.setdefault(gap_key(g), []).append(ip["names"][g["fn"]])
+                        for key, fns in sorted((keys or {"cg-not-contained": names}).items()):
+                            violation(key, "call-graph reachable function not reported (%s, %s): %s" % (short, SELS[s], sorted(set(fns))[:3]), d)
             for s1, s2 in SEL_LE:
                 if not ip["R"].get(s2, set()) <= ip["R"].get(s1, set()):
                     bad = sorted(ip["R"][s2] - ip["R"][s1])
